@@ -46,9 +46,11 @@ PROPERTIES = {
         "assumptions": [
             "crash points are at message granularity only: a restart happens between two writeMessage() calls; a "
             "torn line (crash in the middle of operator<<) and OS buffering cannot be exhibited",
-            "every message fits the limit on its own (entries: limit >= 1; bytes: length + 1 <= limit) and, for the "
-            "entry-counted policy, contains no newline (the count of an existing file is its number of lines); "
-            "outside this domain model and code are still compared but no property is claimed",
+            "limit >= 1; messages of any length, also longer than a whole generation (the limit clause then reads: a "
+            "generation respects the limit or consists of exactly one message); for the entry-counted policy no "
+            "newline inside a message (the count of an existing file is its number of lines; the harness oracle and "
+            "diff_is_failure skip histories with newlines for both policies); outside this domain model and code are "
+            "still compared but no property is claimed",
             "nothing else writes to, renames or removes files of the log directory; the directory exists and is "
             "writable; no I/O errors; size_t arithmetic does not wrap",
             "generation count below 100 (two-digit number part in the exercised file name pattern)",
@@ -70,23 +72,45 @@ def build_harness(work, prop):
 # judging
 
 
+def msg_len(line):
+    hx = line.split(" ")[1]
+    return 0 if hx == "-" else len(hx) // 2
+
+
 def in_domain(case):
-    """limit >= 1, every message fits on its own, no newline in any message"""
+    """limit >= 1, no newline in any message.  Messages that are longer than a whole generation are in the
+    domain (theorems C15_* with `Writable`, limit clause `GenOk`)."""
     if not case.lines or not case.lines[0].startswith("start "):
         return False
     w = case.lines[0].split(" ")
-    kind, limit = w[1], int(w[2])
+    limit = int(w[2])
     if limit < 1:
         return False
     for l in case.lines[1:]:
         if l.startswith("write "):
             hx = l.split(" ")[1]
-            n = len(hx) // 2
             if "0a" in [hx[i:i + 2] for i in range(0, len(hx), 2)]:
                 return False
-            if kind == "maxsize" and n + 1 > limit:
-                return False
     return True
+
+
+def overlong_into_empty(case, index):
+    """is operation `index` (0 = the `case` line) the write of a message that does not fit a generation on its
+    own while the current generation is empty, on the specified behaviour up to there?"""
+    w = case.lines[0].split(" ")
+    kind, limit = w[1], int(w[2])
+    if kind != "maxsize" or index < 2 or index - 1 >= len(case.lines):
+        return False
+    op = case.lines[index - 1]
+    if not op.startswith("write ") or msg_len(op) + 1 <= limit:
+        return False
+    sim = Sim(kind, limit)
+    for l in case.lines[1:index - 1]:
+        if l == "restart":
+            sim.restart()
+        elif l.startswith("write "):
+            sim.write(msg_len(l))
+    return sim.cur == 0
 
 
 def judge(prop, case, impl, model):
@@ -101,15 +125,26 @@ def judge(prop, case, impl, model):
 
 
 def diff_is_failure(prop, p):
-    """On the domain of the theorems the model is proved to satisfy the property and never to throw, and the
-    content of the files is then determined except for one freedom the statement leaves: whether a generation
-    that is exactly full is left alone or already replaced by an empty one when the process restarts.  A
-    difference that first shows at a `restart` with both sides `ok` is therefore only a broken tie."""
+    """On the domain of the theorems (which includes messages longer than a whole generation) the model is
+    proved to satisfy the property and never to throw, and the content of the files is then determined except
+    for two freedoms the statement leaves:
+    * whether a generation in which no further message fits (exactly full, or one over-long message) is left
+      alone or already replaced by an empty one when the process restarts;
+    * whether a message that does not fit a generation on its own, arriving while the current generation is
+      still empty, is put into that empty generation or into a new one (the code and the model start a new one:
+      "the next message would exceed it" is true; either way the message ends up alone in its generation).
+    A difference that first shows at such a point with both sides `ok` (and no `!!` line anywhere in the case,
+    see `judge`) is only a broken tie; every other difference is a failing input: appending to a generation
+    although the message does not fit, or starting one although it fits, contradicts the property also when
+    over-long messages are in the history."""
     if not in_domain(p.case):
         return False
     a, b = (p.impl or ""), (p.model or "")
-    if p.line == "restart" and a.startswith("ok") and b.startswith("ok"):
-        return False
+    if a.startswith("ok") and b.startswith("ok"):
+        if p.line == "restart":
+            return False
+        if overlong_into_empty(p.case, p.index):
+            return False
     return True
 
 
@@ -161,24 +196,40 @@ class Sim:
         return max(self.limit - self.cur, 0)
 
 
-def history(rng, cid, kind, limit, gens, nev, p_restart, off_domain=False):
+def history(rng, cid, kind, limit, gens, nev, p_restart, off_domain=False, p_over=0.0):
+    """p_over: probability that a MaxSize message is chosen longer than a whole generation (length + 1 > limit);
+    such a message is followed by 1-3 further writes (short, or aimed at the limit), with or without a restart
+    directly behind it, before the ordinary mix continues"""
     sim = Sim(kind, limit)
     lines = ["start %s %d %d" % (kind, limit, gens)]
     k = 0
     if kind == "maxsize" and limit == 0:          # construction throws; only restarts make sense
         return Case(cid, lines + ["restart"] * rng.randint(0, 2))
-    for _ in range(nev):
-        if rng.random() < p_restart:
+    forced = []                                   # events scheduled behind an over-long message
+    ev = 0
+    while ev < nev or forced:
+        ev += 1
+        f = forced.pop(0) if forced else None
+        if f == "r" or (f is None and rng.random() < p_restart):
             lines.append("restart")
             sim.restart()
             continue
         if kind == "counted":
             n = rng.choice([0, 1, 1, 2, 3, 6])
+        elif f is not None:
+            n = f
         else:
             room = sim.room()
             n = rng.choice([room - 1, room - 1, room, room - 2, 0, 1, 2, limit - 1, limit - 1, rng.randint(0, max(limit - 1, 0))])
             if off_domain and rng.random() < 0.3:
                 n = rng.choice([limit, limit + 1, 2 * limit])
+            elif rng.random() < p_over:
+                n = rng.choice([limit, limit, limit + 1, limit + 2, 2 * limit + 1, limit + rng.randint(0, 6)])
+                forced = ["r"] if rng.random() < 0.35 else []
+                forced += [rng.choice([0, 0, 1, 2, limit - 2, limit - 1, limit, rng.randint(0, limit)])
+                           for _ in range(rng.randint(1, 3))]
+                if rng.random() < 0.2:
+                    forced.insert(rng.randint(1, len(forced)), "r")
             elif not off_domain:
                 n = min(n, limit - 1)
             n = max(n, 0)
@@ -192,7 +243,7 @@ def history(rng, cid, kind, limit, gens, nev, p_restart, off_domain=False):
     return Case(cid, lines)
 
 
-def exhaustive(kind, limits, gens_list, lens, length):
+def exhaustive(kind, limits, gens_list, lens, length, prefix=None):
     """every history of exactly `length` events (each prefix is checked too: the directory is compared after
     every event) over write(len in lens) / restart"""
     cases = []
@@ -210,7 +261,7 @@ def exhaustive(kind, limits, gens_list, lens, length):
                     else:
                         lines.append("write " + hexmsg(c, e))
                         c += 1
-                cases.append(Case("x%s%d" % (kind[0], k), lines))
+                cases.append(Case("%s%d" % (prefix or "x" + kind[0], k), lines))
     return cases
 
 
@@ -225,9 +276,21 @@ def generate(prop, tier, seed, scale=1):
         else:
             limit = rng.choice([1, 2, 3, 8, 9, 12, 16, 24, 31])
         gens = rng.choice([1, 2, 2, 3, 3, 4, 6])
-        cases.append(history(rng, "g%d" % i, kind, limit, gens, rng.randint(4, 30), rng.choice([0.05, 0.15, 0.3])))
+        cases.append(history(rng, "g%d" % i, kind, limit, gens, rng.randint(4, 30), rng.choice([0.05, 0.15, 0.3]),
+                             p_over=rng.choice([0.0, 0.0, 0.05])))
     yield "generated", cases
-    # outside the theorems' domain (tie only): oversized messages, newlines inside messages, limit 0, max_gen 0
+    # messages longer than a whole generation (in the theorems' domain: limit clause GenOk): limits 3..40 bytes,
+    # lengths around and above the limit, each over-long message followed by 1-3 more writes with and without a
+    # restart in between
+    cases = []
+    for i in range(ncases // 3):
+        limit = rng.choice([3, 4, 5, 8, rng.randint(3, 40), rng.randint(3, 40)])
+        gens = rng.choice([1, 2, 2, 3, 3, 4])
+        cases.append(history(rng, "v%d" % i, "maxsize", limit, gens, rng.randint(2, 14), rng.choice([0.05, 0.2]),
+                             p_over=rng.choice([0.15, 0.3, 0.5])))
+    yield "generated over-long messages", cases
+    # outside the theorems' domain (tie only): newlines inside messages, limit 0; plus max_gen 0 and over-long
+    # messages (in the domain when the rest of the history is)
     cases = []
     for i in range(ncases // 5):
         kind = "counted" if i % 2 else "maxsize"
@@ -241,6 +304,11 @@ def generate(prop, tier, seed, scale=1):
     if tier == "quick":
         yield "exhaustive counted limit 1..3 gens 1..3 len 7", exhaustive("counted", [1, 2, 3], [1, 2, 3], [1], 7)
         yield "exhaustive maxsize limit 8,10 gens 2..3 lens 1,3,6 len 5", exhaustive("maxsize", [8, 10], [2, 3], [1, 3, 6], 5)
+        for limit, gl in ((3, [1, 2, 3]), (5, [2])):
+            lens = [0, 1, limit - 1, limit, limit + 2]          # cost 1, 2, = limit, limit + 1, limit + 3
+            yield ("exhaustive maxsize over-long limit %d gens %s lens %s len 4"
+                   % (limit, ",".join(map(str, gl)), ",".join(map(str, lens))),
+                   exhaustive("maxsize", [limit], gl, lens, 4, "y%d" % limit))
     else:
         yield "exhaustive counted limit 1..4 gens 2..3 len 9", exhaustive("counted", [1, 2, 3, 4], [2, 3], [1], 9)
         yield "exhaustive counted limit 1..4 gens 1..3 lens 1,6 len 7", exhaustive("counted", [1, 2, 3, 4], [1, 2, 3], [1, 6], 7)
@@ -250,3 +318,11 @@ def generate(prop, tier, seed, scale=1):
                exhaustive("maxsize", [8, 9, 12], [2, 3], [1, 3, 6], 6))
         yield ("exhaustive maxsize limit 8 gens 2..3 lens 1,3,6 len 7",
                exhaustive("maxsize", [8], [2, 3], [1, 3, 6], 7))
+        for limit in (3, 4, 5, 6):
+            lens = list(range(0, limit + 2))                    # every cost 1 .. limit + 2
+            yield ("exhaustive maxsize over-long limit %d gens 1..3 lens 0..%d len 4" % (limit, limit + 1),
+                   exhaustive("maxsize", [limit], [1, 2, 3], lens, 4, "y%d" % limit))
+        for limit in (3, 8):
+            lens = [0, 1, limit - 1, limit, limit + 2]
+            yield ("exhaustive maxsize over-long limit %d gens 1..3 lens %s len 5" % (limit, ",".join(map(str, lens))),
+                   exhaustive("maxsize", [limit], [1, 2, 3], lens, 5, "z%d" % limit))
